@@ -11,10 +11,15 @@ from . import gen
 
 def _matrix(rng, chinfo, dtype, square=False, hermitian=False, deficient=False):
     import tenpy.linalg.np_conserved as npc
-    l0 = gen.random_leg(rng, chinfo, max_size=3)
-    l1 = l0.conj() if square else gen.random_leg(rng, chinfo, max_size=3)
+    # legs that are already blocked by charge (the factorisations then work on the tensor as it is, without a hidden pipe) or generic
+    kind = 'sorted-blocked' if rng.random() < 0.4 else None
+    nb = int(rng.integers(3, 5)) if kind else None
+    l0 = gen.random_leg(rng, chinfo, nblocks=nb, max_size=3, kind=kind, qconj=(1 if kind else None))
+    l1 = l0.conj() if square else gen.random_leg(rng, chinfo, nblocks=nb, max_size=3, kind=kind, qconj=(1 if kind else None))
     a = gen.random_array(rng, [l0, l1], dtype, labels=['r', 'c'], qtotal=None if not square else chinfo.make_valid(),
-                         drop_blocks=0.25, zero_blocks=0.15)
+                         drop_blocks=0.25, zero_blocks=0.15, storage=('shuffled' if kind else None))
+    if kind and not square and rng.random() < 0.5:
+        a = a.transpose(['c', 'r']).iset_leg_labels(['r', 'c'])      # a transposed tensor: legal, blocks in non-lexicographic order
     if deficient and len(a._data):
         # make one block rank deficient
         b = a._data[rng.integers(0, len(a._data))]
